@@ -145,6 +145,20 @@ class C02:
             for ds in gen.schedules(rng, s, n_random=2):
                 g.add("cut", gen.resp_op(tree, ov, hl, ds))
             groups.append(g)
+        for j, L in enumerate([996, 997, 998, 999, 1000, 1001, 1002, 1003, 1004, 4096, 8190]):
+            line = b"X-Long: " + b"v" * (L - 10) + b"\r\n"
+            for where in ("trailer", "header", "trailer-second"):
+                if where == "header":
+                    s = b"HTTP/1.1 200 OK\r\n" + line + b"Content-Length: 2\r\n\r\nab"
+                elif where == "trailer":
+                    s = b"HTTP/1.1 200 OK\r\nTransfer-Encoding: chunked\r\n\r\n2\r\nab\r\n0\r\n" + line + b"\r\n"
+                else:
+                    s = b"HTTP/1.1 200 OK\r\nTransfer-Encoding: chunked\r\n\r\n2\r\nab\r\n0\r\nA: b\r\n" + line + b"C: d\r\n\r\nXY"
+                g = Group("L%d%s" % (j, where), "resp-delivery-long-line", {"stream": s.hex(), "hl": None, "framing": where})
+                g.add("one-piece", gen.resp_op(tree, ov, None, [s]))
+                for c in gen.crlf_cuts(s):
+                    g.add("cut", gen.resp_op(tree, ov, None, gen.cut(s, [c])))
+                groups.append(g)
         shorts = [b"HTTP/1.1 200 OK\r\n\r\n", b"HTTP/1.1 200 \r\nTransfer-Encoding:chunked\r\n\r\n1;a\r\nx\r\n0\r\nA:b\r\n c\r\n\r\nZ"]
         max_all = n_for(tier, 10, 13)
         for j, s in enumerate(shorts):
@@ -520,8 +534,12 @@ class C08:
                 d = rng.pick([2 ** 64 - 1, 2 ** 64 - 20, 2 ** 64 - 100, 2 ** 63, 2 ** 32, 10_000_001, 9_999_000])
             with_cl = d > 0 or rng.chance(1, 3)
             hb = b"".join(f.raw for f in fields)
+            if with_cl and rng.chance(1, 5):
+                hb += gen.randcase(rng, b"Transfer-Encoding") + b": " + rng.pick([b"chunked", b"gzip, chunked", b"Chunked", b"chunked, gzip"]) + CRLF
             if with_cl:
                 hb += b"Content-Length: " + str(d).encode() + CRLF
+            if with_cl and rng.chance(1, 12):
+                hb += b"transfer-encoding: chunked" + CRLF
             hb += CRLF
             body = gen.rand_bytes(rng, min(d, 40), b"ab\r\n")
             s = line + CRLF + hb + body
@@ -831,6 +849,12 @@ class C17:
         if pos.startswith("resp-cl"):
             code = pos[7:] or "200"
             return gen.resp_op(tree, ov, None, [b"HTTP/1.1 " + code.encode() + b" OK\r\nContent-Length:" + s + b"\r\n\r\n" + body])
+        if pos == "respte-cl":
+            return gen.resp_op(tree, ov, None, [b"HTTP/1.1 200 OK\r\nTransfer-Encoding: chunked\r\nContent-Length:" + s + b"\r\n\r\n" + body])
+        if pos == "respte2-cl":
+            return gen.resp_op(tree, ov, None, [b"HTTP/1.1 200 OK\r\nContent-Length:" + s + b"\r\ntransfer-encoding: gzip, Chunked\r\n\r\n" + body])
+        if pos == "reqte-cl":
+            return gen.req_op(tree, ov, (None, None, None), [b"POST / HTTP/1.1\r\nTransfer-Encoding: chunked\r\nContent-Length: " + s + b"\r\n\r\n" + body])
         if pos.startswith("req-cl-"):
             return gen.req_op(tree, ov, (None, None, None), [pos[7:].encode() + b" / HTTP/1.1\r\nContent-Length: " + s + b"\r\n\r\n" + body])
         if pos == "chunk":
@@ -844,7 +868,8 @@ class C17:
         groups = []
         positions = ["req-cl", "resp-cl", "chunk", "chunk-ext", "status"]
         more_positions = ["resp-cl100", "resp-cl101", "resp-cl199", "resp-cl204", "resp-cl304", "resp-cl404", "resp-cl0", "resp-cl999",
-                          "req-cl-GET", "req-cl-HEAD", "req-cl-OPTIONS", "req-cl-CONNECT", "req-cl-TRACE"]
+                          "req-cl-GET", "req-cl-HEAD", "req-cl-OPTIONS", "req-cl-CONNECT", "req-cl-TRACE",
+                          "respte-cl", "respte2-cl", "reqte-cl"]
         k = 0
         for w in small_strings(NUM_ALPHA, 2):
             for pos in more_positions:
@@ -879,7 +904,7 @@ class C17:
         fails = []
         pos, w = group.meta["pos"], unhex(group.meta["field"])
         r = ParseResult(res[group.tag(0)])
-        if pos.startswith("req-cl") or pos.startswith("resp-cl"):
+        if pos.startswith("req-cl") or pos.startswith("resp-cl") or pos in ("respte-cl", "respte2-cl", "reqte-cl"):
             if b"\r" in w or b"\n" in w:
                 return fails        # the field then is not one header value
             field = w.strip(b" \t")
@@ -967,6 +992,14 @@ class C06:
             g.add("bytewise", gen.resp_op(tree, ov, None, [s[i:i + 1] for i in range(len(s))]))
             code = rng.pick(gen.BAD_CODES + gen.GOOD_CODES)
             add("status-numeric", gen.resp_op(tree, ov, None, [b"HTTP/1.1 " + code + b" x\r\n\r\n"]))
+        for nchunks in (1000, 5000, 20000, 60000):
+            body = b"1\r\nx\r\n" * nchunks + b"0\r\n\r\n"
+            s = b"HTTP/1.1 200 OK\r\nTransfer-Encoding: chunked\r\n\r\n" + body
+            g = Group("z%d" % k, "chunk-many", {"chunks": nchunks})
+            g.add("op", gen.resp_op(tree, ov, None, [s]), {"nocmp": True})
+            g.add("two", gen.resp_op(tree, ov, None, [s[:len(s) // 2 + 1], s[len(s) // 2 + 1:]]), {"nocmp": True})
+            groups.append(g)
+            k += 1
         # general streams with mutations, all kinds of limits
         for _ in range(n):
             s, info = gen.gen_request(rng, good_p=0.6)
@@ -1095,6 +1128,31 @@ class C07:
                     g.add("one-piece", gen.resp_op(tree, ov, None, [s]))
                     g.add("cut", gen.resp_op(tree, ov, None, gen.cut(s, gen.crlf_cuts(s) + [len(s) - len(body) // 2])))
                     g.add("bytewise", gen.resp_op(tree, ov, None, [s[i:i + 1] for i in range(len(s))]))
+                    groups.append(g)
+                    k += 1
+        for nchunks in (8, 16, 22, 30, 40, 64, 200):
+            for size in (1, 3, 16):
+                body = b"".join(b"%x\r\n" % size + b"x" * size + b"\r\n" for _ in range(nchunks)) + b"0\r\n\r\n"
+                s = b"HTTP/1.1 200 OK\r\nTransfer-Encoding: chunked\r\n\r\n" + body
+                g = Group("m%d" % k, "chunk-many", {"declared": "%d chunks of %d" % (nchunks, size), "max": None})
+                g.add("one-piece", gen.resp_op(tree, ov, None, [s]))
+                g.add("sevens", gen.resp_op(tree, ov, None, [s[i:i + 7] for i in range(0, len(s), 7)]))
+                if nchunks <= 40:
+                    g.add("bytewise", gen.resp_op(tree, ov, None, [s[i:i + 1] for i in range(len(s))]))
+                groups.append(g)
+                k += 1
+        for d in declared:
+            for te in (b"chunked", b"gzip, Chunked"):
+                s = b"HTTP/1.1 200 OK\r\nTransfer-Encoding: " + te + b"\r\nContent-Length: %d\r\n\r\n" % d + rng.pick([b"", b"2\r\nab\r\n", b"ab"])
+                g = Group("m%d" % k, "resp-both-framings", {"declared": d, "max": None})
+                g.add("one-piece", gen.resp_op(tree, ov, None, [s]))
+                g.add("cut", gen.resp_op(tree, ov, None, gen.cut(s, gen.crlf_cuts(s))))
+                groups.append(g)
+                k += 1
+                for mx in (None, 10_000_000):
+                    s = b"POST / HTTP/1.1\r\nTransfer-Encoding: " + te + b"\r\nContent-Length: %d\r\n\r\n" % d
+                    g = Group("m%d" % k, "req-both-framings", {"declared": d, "max": mx})
+                    g.add("one-piece", gen.req_op(tree, ov, (1000, 1000, mx), [s]))
                     groups.append(g)
                     k += 1
         # ordinary traffic too: the constants must also hold there
